@@ -320,6 +320,12 @@ func main() {
 						continue // MaxInt-l+2 wraps for l < 2
 					}
 					for _, fn := range []string{"Chunks", "Batches", "Head", "Tail", "At", "PtrAt", "Rotate"} {
+						if (fn == "Chunks" || fn == "Batches") && a < 1<<61 && a > 1<<24 {
+							// a broken size computation would ask for a slice of 2^31..2^53
+							// headers: tens of gigabytes, which kills the check instead of
+							// failing it; the values near MaxInt fail fast, 2^20 is affordable
+							a = 1 << 20
+						}
 						cases = append(cases, tcase{Fn: fn, Len: l, Arg: a})
 					}
 					for _, fn := range []string{"Chunks", "Batches", "At", "PtrAt", "Rotate"} { // negative: documented panic or nil
